@@ -9,7 +9,7 @@ PROPS_MODULE = "Props.C02"
 THEOREMS = ["hp_closed_form_solves_ode", "hp_closed_form_initial", "hp_solution_unique", "hp_generations_identical",
             "hp_reference_encloses_closed_form"]
 REQUIRED = ["Props/C02.v", "Model/DecayCheck.v"]
-TRANSLATORS = ["tr_data", "tr_tables", "tr_pure"]
+TRANSLATORS = ["tr_data", "synth_dataset", "tr_data_synth", "tr_tables", "tr_pure"]
 SHAPE_KEYS = ["InventoryHP::decay", "InventoryHP::__init__", "InventoryHP::numbers", "AbstractInventory::_setup_decay_calc",
               "AbstractInventory::_perform_decay_calc", "AbstractInventory::_convert_decay_time", "load_dataset", "DecayMatricesSympy"]
 PARTIAL = ["hp_precision (4 m eps S_i error bound from 320 working digits) is not proved; relative accuracy 1e-13 is decided per case against "
@@ -53,6 +53,11 @@ def correspondence(ctx):
         if v["found_input"] and "contents" in inp:
             v["key"] = "hp-unguarded:" + ",".join(sorted(inp["contents"])) + ":" + inp["t"]
         viol.append(v)
+    sn, ss = D.names_of("synth")
+    scases = D.gen_cases(rng, sn, ss, 8, 3, "InventoryHP", ds="synth", cum_every=1)
+    D.decay_stream(rng, scases, "check_hp_decay Synth", "decay_hp_synth", streams, viol, samples,
+                   "the same check on the synthetic data set (states p q r x, 365.25-day year, SF, branches not summing to one)",
+                   shard=2, ds="synth", pre=D.PRE.replace("Model.Default", "Model.Default Model.Synth"))
     return {"streams": streams, "violations": viol, "samples": samples}
 
 
